@@ -8,7 +8,8 @@ LEAN_MODULES = ['C04'] + C04_more.LEAN_MODULES_EXTRA + C04_gen.LEAN_MODULES + C0
 MANIFEST = dict(
     text="One Lean theorem per operator machine: for all parameters, raw scripts and source modes, delivered trace = the documented list function (Spec.*) of the source's values and ending; "
          "chains = composition (seq_out). Tie: exhaustive small-scope + seeded differential runs of every machine against the real operator (values, kinds, order). "
-         "Deviations of the pinned tree are proved as witness theorems and listed as known findings.",
+         "Deviations of the pinned tree are proved as witness theorems and listed as known findings."
+         ' RangeWithStep (integral bounds and steps): every start +- i*step of [start:end), ceil(|end-start|/step) values (C04d.rangeWithStep), tied by kind=create and by the generator regenerated from the source (C04create.rangeWithStepG_gen).',
     technique="Lean 4 proof (machine = list-function specification, induction on the value list) + differential correspondence",
     ref='5/C04')
 
